@@ -44,7 +44,7 @@ local macro "rank_go" hf:ident h0:ident : tactic =>
   `(tactic| (
     cases hg : s.gen <;> cases hr : i.srcReady <;> cases hl : s.lrty <;>
       simp [$hf:ident, $h0:ident, hg, hr, hl, fsm_beq, gen_beq, fsmNext, genNext, done,
-        lgoodDone, lcrdDone, dispatchNext, generate, ph, nf, nr, en, step_fsm, step_gen]
+        lgoodDone, lcrdDone, dispatchNext, generate, ph, nf, nr, na, en, step_fsm, step_gen]
         at fa fc fb flc fac flr lgA lcC fA fC g0 hT hz ⊢ <;>
       (repeat' split) <;> (try simp only [ph] at *) <;> omega))
 
@@ -53,6 +53,7 @@ local macro "rank_pre" : tactic =>
   `(tactic| (
     obtain ⟨fa, fc, fb, flg, flc, fac, a4, a3, bc, bc3, cr, hk, hc, pb, lgA, lcC, fA, fC, g0, en, nf, nr, accA,
       bcA, popB, aL, pL, lrN, lrD, lbI⟩ := facts_of (c := c) hI e
+    have na := no_abort (c := c) hI e
     have flr := cnt_lrtys s i n
     simp only [World.next, rankR] at hz ⊢
     simp only [flr, flc, fac]))
